@@ -50,7 +50,7 @@ def _in_family(m, fi: FuncInfo) -> bool:
 def run(ctx: Ctx):
   m = model(ctx)
   eng = m.eng
-  for r in (r1, r2, r3, r4, r5, r6, r7, r8, r9, r10, r11, r13, r14, r16, r17, r18):
+  for r in (r1, r2, r3, r4, r5, r6, r7, r8, r9, r10, r11, r13, r14, r16, r17, r18, r19, r20):
     ctx.guard(r, m)
   from mlmverif.props import c13
   ctx.include('R-C04-15', '"end-of-stream carrying all producers\' return values":'
@@ -1218,6 +1218,70 @@ def r13(ctx: Ctx, m):
   ctx.floor(rule, 2, n)
 
 
+def r19(ctx: Ctx, m):
+  rule = 'R-C04-19'
+  ctx.rule(rule, '"any number of consumers draining it ... for all thread interleavings": every `iter(queue)` is a consumer of its'
+           ' own — __iter__ of the queue classes returns a freshly constructed iterator and stores nothing on the queue.'
+           ' The dequeue iterator keeps a private cache (empty-check, extend(get_batch()), popleft) that is not atomic: one'
+           ' iterator object shared by two consumer threads lets one of them pop from the cache the other just filled'
+           ' (IndexError instead of end-of-stream, elements delivered to the wrong consumer)')
+  n = 0
+  seen_fi = set()
+  for ci0 in m.classes:
+   for ci in m.repo.mro(ci0):
+    fi = ci.methods.get('__iter__')
+    if fi is None or id(fi.node) in seen_fi:
+      continue
+    seen_fi.add(id(fi.node))
+    n += 1
+    stores = [x for x in ast.walk(fi.node) if isinstance(x, (ast.Assign, ast.AugAssign, ast.AnnAssign, ast.NamedExpr))
+              and any(is_self_attr(y) and isinstance(y.ctx, ast.Store) for y in ast.walk(x))]
+    reads_memo = [c for c in ast.walk(fi.node) if isinstance(c, ast.Call) and unparse(c.func) == 'getattr' and c.args
+                  and unparse(c.args[0]) == 'self']
+    rets = [r_ for r_ in ast.walk(fi.node) if isinstance(r_, ast.Return)]
+    fresh = bool(rets) and all(isinstance(r_.value, ast.Call) for r_ in rets)
+    what = f'{ci.name}.__iter__ hands every caller a fresh iterator'
+    if stores or reads_memo or not fresh:
+      b = (stores or reads_memo or rets or [fi.node])[0]
+      ctx.fail(rule, fi, what,
+               f'{ci.name}.__iter__ keeps / re-uses an iterator on the queue (`{unparse(b)[:60]}`): two consumers that iterate the'
+               ' queue share one iterator object whose cache handling is not atomic — one pops what the other dequeued (or'
+               ' from the empty cache: IndexError instead of end-of-stream)', node=b)
+    else:
+      ctx.ok(rule, fi, what, fi.node)
+  ctx.floor(rule, 1, n)
+
+
+def r20(ctx: Ctx, m):
+  rule = 'R-C04-20'
+  ctx.rule(rule, '"each producer\'s elements are received in production order": a producer loop hands element i over before it'
+           ' fetches element i+1 — in the coroutine producers every `self.async_put(...)` / `self.put(...)` call is the'
+           ' direct operand of an `await` (or a plain statement call for the blocking put), never wrapped into a task /'
+           ' future that is gathered later: concurrent put() calls of one producer on a thread pool complete in any order')
+  n = 0
+  for fi in m.methods():
+    if not fi.name.endswith('enqueue_from_iterator'):
+      continue
+    pm = parent_map(fi.node)
+    for c in ast.walk(fi.node):
+      if not (isinstance(c, ast.Call) and isinstance(c.func, ast.Attribute) and is_self_attr(c.func) and c.func.attr in (
+          'async_put', 'put')):
+        continue
+      n += 1
+      par = pm.get(c)
+      is_async = c.func.attr.startswith('async_')
+      ok = isinstance(par, ast.Await) if is_async else isinstance(par, ast.Expr)
+      what = f'{fi.qualname}: `{unparse(c)}` completes before the next element is fetched'
+      if ok:
+        ctx.ok(rule, fi, what, c)
+      else:
+        ctx.fail(rule, fi, what,
+                 f'`{unparse(par)[:70]}` in {fi.qualname}: the hand-over of an element is not awaited where it is started — the'
+                 ' producer goes on to the next element while earlier ones are still being enqueued on the thread pool, and'
+                 ' nothing orders those put() calls: the consumer can receive [1, 2, 0]', node=c)
+  ctx.floor(rule, 2, n)
+
+
 def r14(ctx: Ctx, m):
   rule = 'R-C04-14'
   ctx.rule(rule, 'test-then-wait is atomic: on every path from the attempt that'
@@ -1287,6 +1351,10 @@ from mlmverif.selfcheck import B, OK  # noqa: E402
 
 _F = 'utils/iter_utils.py'
 VARIANTS = [
+    B('queue-iter-memoised', _F,
+      '  def __iter__(self):\n    return self.dequeue_as_iterator()', "  def __iter__(self):\n    if getattr(self, '_it', None) is None:\n      self._it = self.dequeue_as_iterator()\n    return self._it", 'R-C04-19'),
+    B('async-producer-does-not-await-its-puts', _F,
+      '        await self.async_put(value)', '        asyncio.ensure_future(self.async_put(value))', 'R-C04-20'),
     B('revert-put-nowait-without-wake-up', _F,
       "    self._put_nowait(value)\n    # An element arrived: wakes a consumer blocked on the empty queue, also for\n    # a producer that only polls with put_nowait().\n    with self._dequeue_lock:\n      self._dequeue_lock.notify()\n",
       "    self._put_nowait(value)\n", 'R-C04-5'),
